@@ -124,6 +124,21 @@ func Try(what string, fn func()) (f *Failure) {
 	return nil
 }
 
+// TryF is Try with a lazily built description (for hot loops).
+func TryF(what func() string, fn func()) (f *Failure) {
+	defer func() {
+		if r := recover(); r != nil {
+			st := string(debug.Stack())
+			if len(st) > 3000 {
+				st = st[:3000]
+			}
+			f = &Failure{Kind: "panic", Msg: fmt.Sprintf("%s panicked: %v\n%s", what(), r, st)}
+		}
+	}()
+	fn()
+	return nil
+}
+
 // TryKind is Try with a caller-chosen failure kind.
 func TryKind(kind, what string, fn func()) *Failure {
 	f := Try(what, fn)
